@@ -101,8 +101,28 @@ RoundTripJudge(e) ==
   ELSE IF \E k \in 1..Len(e.obs) : ~e.obs[k].same \/ e.obs[k].n_parsed # e.n THEN "parse_differs"
   ELSE "ok"
 
+\* documented defaults (new archive: gzip internal compression, zeros, no metadata, no tiles; Header::default():
+\* version 3, gzip / none / unknown, bounds -180,-85 .. 180,85) and the small Directory / Entry API
+DefaultsJudge(e) ==
+  LET d == Hd!DecHeader(e.header_default) IN
+  IF e.new.ic # 2 \/ e.new.tc # 3 \/ e.new.tt # 2 \/ e.new.zooms # <<0, 0, 0>> \/ e.new.n # 0 \/ ~e.new.meta_empty \/ ~e.new.coords_zero
+  THEN "X:defaults_of_a_new_archive_differ_from_documentation"
+  ELSE IF d.kind # "ok" \/ d.h.icomp # 2 \/ d.h.tcomp # 1 \/ d.h.ttype # 0 \/ d.h.clustered # 0
+          \/ <<d.h.min_lon, d.h.min_lat, d.h.max_lon, d.h.max_lat, d.h.c_lon, d.h.c_lat>> # <<-1800000000, -850000000, 1800000000, 850000000, 0, 0>>
+          \/ \E k \in 1..11 : d.h[Hd!U64Fields[k]] # U!Zero
+  THEN "X:header_default_differs_from_documentation"
+  ELSE IF \E k \in 1..Len(e.apis) :
+            LET a == e.apis[k]  E == a.entries IN
+              \/ a.len # Len(E) \/ a.is_empty # (Len(E) = 0) \/ a.iter # E \/ a.back # E
+              \/ (Len(E) > 0 /\ a.first # <<E[1]>>)
+              \/ \E i \in 1..Len(E) : \/ a.ranges[i] # <<E[i].id, U!Plus(E[i].id, E[i].run)>>
+                                       \/ a.leafs[i] # D!IsLeafPtr(E[i])
+  THEN "X:directory_api_differs"
+  ELSE "ok"
+
 Judge(e) ==
   CASE e.ev = "Tables"     -> TablesJudge(e)
+    [] e.ev = "Defaults"   -> DefaultsJudge(e)
     [] e.ev = "DirRoundTrip" -> RoundTripJudge(e)
     [] e.ev = "Dir"        -> DirJudge(e)
     [] e.ev = "DirRaw"     -> DirRawJudge(e)
